@@ -570,6 +570,19 @@ class Instance(object):
     def __bool__(self):
         return self._cls.interp.truth(self)
 
+    # container protocol for Python-side helpers of the rules (len(x), iteration, `in`): through the class's own special methods, as the interpreter does
+    def __len__(self):
+        m = self._sa_special("__len__")
+        if m is None:
+            raise TypeError("object of type '%s' has no len()" % self._cls.name)
+        return m()
+
+    def __iter__(self):
+        return iter(self._cls.interp.iterate(self))
+
+    def __contains__(self, item):
+        return bool(self._cls.interp.compare(ast.In(), item, self, None))
+
 
 class SuperProxy(object):
     def __init__(self, inst, start):
